@@ -11,10 +11,13 @@ Mirrors, at the level of *which files exist / are complete*:
   setup_config (restart branch) (setup.py ~110-141)     missing file / cstep == restarted_from / traj.txt check
   load_paths_from_disk/load_path (path.py ~424-500)     asserts + parsing of traj.txt / order.txt / energy.txt
 
-The model is written as the code is (including the in-place truncation of restart.toml and the
-data row being appended before the restart file is rewritten).  `Variant.repaired` is the
-write-to-temp + os.replace version of `write_toml`, so that a later repair of the code is not a
-false alarm of the tie.
+The model is written as the code is NOW (after the fix commits ba0d066, 05f8082, e7b75fb, 62f494c):
+`write_toml` writes a temp file and renames it (`Variant.repaired`, the default); the data row
+still is appended before the restart file is rewritten, but a restart's `setup_config` calls
+`clean_data_file` (`cleanData` / `restoreDisk`, `Cfg.cleanOnRestart`); the delete_old_all block
+removes every leftover entry of `accepted/` before the rmdir.  The historical behaviour
+(`Variant.asIs`: truncation in place; `cleanOnRestart := false`) is kept as a switch: the tie reads
+the variant off the real effect trace, and the counterexample theorems document the old findings.
 
 A crash point is `(k, half)`: the first `k` effects have been performed completely and, if
 `half`, the effect number `k` has been performed half-way (only meaningful for the `write`
